@@ -71,7 +71,7 @@ def tiny_gradient(c):
     return bool(float(gf @ gf) <= 10.0 * EPS * c["n"] * max(1.0, float(np.linalg.norm(gf))))
 
 
-PATH_FRACTION = 0.8
+PATH_FRACTION = 0.7
 
 
 def cauchy_reference(c):
